@@ -25,7 +25,7 @@ VARIABLES cfg, ev, steps
 vars == <<cfg, ev, steps>>
 St == [cfg |-> cfg]
 
-S == BindKeys(Bind(TheSchema, "none"), IF RootKey = "" THEN "default" ELSE RootKey)
+S == BindKeys(Bind(TheSchema, PNone), IF RootKey = "" THEN "default" ELSE RootKey)
 Formats == {"json", "yaml", "bson", "xml", "pickle"}
 
 Init ==
